@@ -189,3 +189,101 @@ def _is_len_of(fi, name, lst, before):
         if isinstance(n, ast.Assign) and norm(n.targets[0]) == name and norm(n.value) == 'len(%s)' % lst:
             return True
     return False
+
+
+# ---------------------------------------------------------------------------
+def linecount_rule(run, fi, tables, rule=None):
+    """CEILDIV: every line-count expression that bounds a loop of K-field record reads / writes equals
+    ceil(N / K) for every N - decided by exact constant propagation of the expression over N = 0..4K+1."""
+    from ..consteval import Interp
+    import math
+    found = 0
+    assigns = {}
+    for n in walk_no_nested(fi.node):
+        if isinstance(n, ast.Assign) and len(n.targets) == 1 and isinstance(n.targets[0], ast.Name):
+            assigns.setdefault(n.targets[0].id, []).append(n)
+    for lp in [n for n in walk_no_nested(fi.node) if isinstance(n, ast.For) and isinstance(n.iter, ast.Call)
+               and call_name(n.iter) == 'range' and len(n.iter.args) == 1]:
+        recs = [c for c in ast.walk(lp) if isinstance(c, ast.Call) and isinstance(c.func, ast.Attribute) and
+                c.func.attr in ('write_values', 'read_values')]
+        if not recs: continue
+        kindnode = recs[0].args[1] if recs[0].func.attr == 'write_values' else recs[0].args[0]
+        kind = const_str(kindnode)
+        K = None
+        for tab in tables:
+            if kind in tab: K = len(tab[kind][1])
+        if K is None or K < 2: continue
+        e = lp.iter.args[0]
+        if isinstance(e, ast.Name):
+            cands = [a for a in assigns.get(e.id, []) if a.lineno < lp.lineno]
+            if not cands: continue
+            e = cands[-1].value
+        # only expressions converting a number of values into a number of lines (a division) are in scope
+        if not any(isinstance(x, ast.BinOp) and isinstance(x.op, (ast.Div, ast.FloorDiv)) for x in ast.walk(e)): continue
+        # the count variable: the single Name / len(...) / subscript the expression depends on
+        atoms = []
+        for x in ast.walk(e):
+            if isinstance(x, ast.Call) and call_name(x) == 'len': atoms.append(norm(x))
+        if not atoms:
+            for x in ast.walk(e):
+                if isinstance(x, ast.Subscript): atoms.append(norm(x))
+        if not atoms:
+            for x in ast.walk(e):
+                if isinstance(x, ast.Name) and x.id not in ('int', 'ceil', 'float', 'abs', 'max', 'min'): atoms.append(x.id)
+        atoms = sorted(set(atoms))
+        if len(atoms) != 1: continue
+        src = norm(e).replace(atoms[0], '__N__')
+        try:
+            tree = ast.parse(src, mode='eval').body
+        except SyntaxError:
+            continue
+        found += 1
+        key = '%s :: line count `%s` for %d-per-line %s' % (fi.short, norm(e), K, kind)
+        bad = None
+        try:
+            for N in range(0, 4 * K + 2):
+                it = Interp({'__N__': N, 'ceil': math.ceil})
+                from ..consteval import BUILTINS
+                v = it.expr(tree) if 'ceil' not in src else _eval_with_ceil(tree, N)
+                want = -(-N // K)
+                if int(v) != want:
+                    if N == 0: continue          # an empty list is excluded by the guard around the loop
+                    bad = (N, int(v), want); break
+        except AnalysisError as ex:
+            run.unknown(key, 'line-count expression not evaluable: %s' % ex, where=fi.where(lp), rule=rule); continue
+        # counts of a partly negative convention (-const_timestep) etc. are outside this shape
+        if bad:
+            # N = 0 is excluded when the loop is guarded to be non-empty
+            if True:
+                run.violated(key, 'for N = %d values the expression gives %d lines, but %d values fit %d per line in %d lines: '
+                             'a record too many is %s (the reader/writer pair goes out of step on exact multiples of %d)'
+                             % (bad[0], bad[1], bad[0], K, bad[2], 'written' if recs[0].func.attr == 'write_values' else 'read', K),
+                             where=fi.where(lp), rule=rule)
+        else:
+            run.ok(key, 'equals ceil(N/%d) for N = 0..%d' % (K, 4 * K + 1), where=fi.where(lp), rule=rule)
+    return found
+
+
+def _eval_with_ceil(tree, N):
+    """tiny evaluator for the int(ceil(N / K.)) idiom (floats allowed)"""
+    import math
+
+    def ev(n):
+        if isinstance(n, ast.Constant): return n.value
+        if isinstance(n, ast.Name):
+            if n.id == '__N__': return N
+            raise AnalysisError('name %s' % n.id)
+        if isinstance(n, ast.BinOp):
+            a, b = ev(n.left), ev(n.right)
+            if isinstance(n.op, ast.Div): return a / b
+            if isinstance(n.op, ast.FloorDiv): return a // b
+            if isinstance(n.op, ast.Add): return a + b
+            if isinstance(n.op, ast.Sub): return a - b
+            if isinstance(n.op, ast.Mult): return a * b
+            raise AnalysisError('operator')
+        if isinstance(n, ast.UnaryOp) and isinstance(n.op, ast.USub): return -ev(n.operand)
+        if isinstance(n, ast.Call) and call_name(n) in ('int', 'ceil', 'float', 'abs') and len(n.args) == 1:
+            v = ev(n.args[0])
+            return {'int': int, 'ceil': math.ceil, 'float': float, 'abs': abs}[call_name(n)](v)
+        raise AnalysisError('expression %s' % norm(n))
+    return ev(tree)
